@@ -48,6 +48,9 @@ ITEMS = [
     # send_unsolicited_response: let next_time = current_time_millis() + 1000;
     ("announce_repeat_register", [], "N", SD,
      r"fn send_unsolicited_response\(&mut self", r"let next_time = current_time_millis\(\) \+ (?P<e>\d+);", {}, False),
+    # add_interface: let next_time = current_time_millis() + 1000;  (second announcement on a new interface)
+    ("announce_repeat_add_interface", [], "N", SD,
+     r"fn add_interface\(&mut self", r"let next_time = current_time_millis\(\) \+ (?P<e>\d+);", {}, False),
     # exec_command_unregister: let next_time = current_time_millis() + 120;  (IPv4 and IPv6 arm)
     ("goodbye_repeat_v4", [], "N", SD,
      r"fn exec_command_unregister\(", r"(?s)let next_time = current_time_millis\(\) \+ (?P<e>\d+);(?:(?!let next_time).)*?UnregisterResend\(packet, \*if_index, true\)", {}, False),
